@@ -236,6 +236,13 @@ namespace photon
         // threads still present in a sleepq (idx != -1) must only be resumed
         // by their own vCPU, so they can not be stolen
         bool stealable() { return allow_work_stealing() && idx == -1; }
+        // returns the wake-up reason delivered to a yield and clears it, so that
+        // it is not reported a second time by the next sleep
+        int consume_error_number() {
+            auto e = error_number;
+            error_number = 0;
+            return e;
+        }
         int set_error_number() {
             if (likely(error_number)) {
                 errno = error_number;
@@ -1334,7 +1341,7 @@ insert_list:
         rq.current->error_number = 0;
         auto sw = AtomicRunQ(rq).goto_next();
         switch_context(sw.from, sw.to);
-        return rq.current->error_number;
+        return rq.current->consume_error_number();
     }
 
     __attribute__((noinline))
@@ -1367,7 +1374,7 @@ insert_list:
         if_update_now();
         rq.current->error_number = 0;
         switch_context(sw.from, sw.to);
-        return rq.current->error_number;
+        return rq.current->consume_error_number();
     }
 
     __attribute__((always_inline)) inline
